@@ -154,6 +154,7 @@ def build_unit(name, probe=False):
                 m3 = re.match(r'arg\s+(\w+)(?:#(\d+))?\s+(\d+)\s+"(.*)"$', ln)
                 m4 = re.match(r'tail\s+"(.*)"$', ln)
                 m5 = re.match(r'index\s+(\w+)(?:#(\d+))?(?:\s+then=(\w+))?\s+"(.*)"$', ln)
+                m6 = re.match(r'range\s+(\w+)(?:#(\d+))?\s+"(.*)"$', ln)
                 if m4:
                     # trailing expression of the body (after the last `;` / `}` at nesting depth 1; the whole body if there is none)
                     from rx import lex as _lexT
@@ -194,6 +195,46 @@ def build_unit(name, probe=False):
                                     break
                     if text is None:
                         raise ExtractError(f'lost anchor: index expression `{m5.group(1)}[..]` #{want} not found in {relpath}::{fname}')
+                elif m6:
+                    # bounds of the `for NAME in LO..HI` / `LO..=HI` loop (#k-th loop over that variable): template placeholders {lo} and {hi} (exclusive upper bound)
+                    want = int(m6.group(2) or 1); seen = 0; text = None
+                    for mm in re.finditer(r'\bfor\s+' + re.escape(m6.group(1)) + r'\s+in\s+', body):
+                        seen += 1
+                        if seen < want:
+                            continue
+                        rest_ = body[mm.end():]
+                        depth = 0; endp = None
+                        for ci, ch in enumerate(rest_):
+                            if ch in '([':
+                                depth += 1
+                            elif ch in ')]':
+                                depth -= 1
+                            elif ch == '{' and depth == 0:
+                                endp = ci; break
+                        if endp is None:
+                            break
+                        hdr = rest_[:endp].strip()
+                        # top-level `..` / `..=`
+                        depth = 0; cut = None
+                        for ci in range(len(hdr) - 1):
+                            ch = hdr[ci]
+                            if ch in '([':
+                                depth += 1
+                            elif ch in ')]':
+                                depth -= 1
+                            elif ch == '.' and hdr[ci + 1] == '.' and depth == 0:
+                                cut = ci; break
+                        if cut is None:
+                            break
+                        lo_ = hdr[:cut].strip(); hi_ = hdr[cut + 2:].strip()
+                        if hi_.startswith('='):
+                            hi_ = '(' + hi_[1:].strip() + ') + 1'
+                        if lo_.startswith('(') and not hi_:
+                            break
+                        text = m6.group(3).replace('{lo}', lo_).replace('{hi}', hi_)
+                        break
+                    if text is None:
+                        raise ExtractError(f'lost anchor: range loop over `{m6.group(1)}` #{want} not found in {relpath}::{fname}')
                 elif m2:
                     pos = find_stmt(body, m2.group(1))
                     if pos is None:
@@ -337,6 +378,16 @@ def _emit_extracted(u, target, args, block, subst, emit):
         if a_ in body:
             body = body.replace(a_, b_)
             fired.add('subst[' + a_ + ' => ' + b_ + ']')
+    # `subst_ws=`: like subst, but the text to replace is matched up to whitespace (multi-line expressions whose indentation differs between occurrences); every
+    # occurrence is replaced; none found = lost anchor
+    for pair in [x for x in args.get('subst_ws', '').split('|') if '=>' in x]:
+        a_, b_ = pair.split('=>', 1)
+        chars = [c for c in a_ if not c.isspace()]
+        rx_ = r'\s*'.join(re.escape(c) for c in chars)
+        if not re.search(rx_, body):
+            raise ExtractError(f'lost anchor: text to substitute `{a_}` not found (up to whitespace) in {relpath}::{fname}')
+        body = re.sub(rx_, lambda m_: b_, body)
+        fired.add('subst[' + a_ + ' => ' + b_ + ']')
     if 'ret' in args:
         sig = name_return(sig, args['ret'])
     if 'rename' in args:
